@@ -20,7 +20,9 @@ def answers():
     big = b'HTTP/1.1 200 OK\r\nX-Pad: ' + b'p' * (16385 - len(b'HTTP/1.1 200 OK\r\nX-Pad: ') - 4) + b'\r\n\r\n'
     assert len(big) == 16385
     fit = b'HTTP/1.1 200 OK\r\nX-Pad: ' + b'p' * (16384 - len(b'HTTP/1.1 200 OK\r\nX-Pad: ') - 4) + b'\r\n\r\n'
+    many = b'HTTP/1.1 200 OK\r\n' + b''.join(b'X-H%03d: ' % i + b'h' * 500 + b'\r\n' for i in range(48)) + b'\r\n'
     return {
+        '24k-many-short-lines': ([many], False), '24k-many-short-lines-chunks': ([many[i:i + 1024] for i in range(0, len(many), 1024)], False),
         '200': ([OK200], True), '200-min': ([b'HTTP/1.1 200 OK\r\n\r\n'], True), '200-http10': ([b'HTTP/1.0 200 Connection established\r\n\r\n'], True),
         '200-bytes': ([OK200[i:i + 1] for i in range(len(OK200))], True),
         '200-16384': ([fit], True),
